@@ -346,6 +346,8 @@ def run(ctx: Ctx) -> int:
     for r in rows[:2] + rows[-1:]:
         ctx.sample({k: r[k] for k in ("prov", "script", "fl", "sent", "steps", "wrapSign", "end")})
     ctx.assume("authentication provider scripted at the spnego.client boundary; PDUs decoded by the scripted server's own codec")
+    from .. import faultsim
+    faultsim.check(ctx, "C15")   # the same statement through the public API: peer faults at every step of the online conversation (OnlineFaults.tla)
     return ctx.finish(
         rule="behaviours = every terminal path of RpcBind.tla (provider script x server script) emitted by TLC; each replayed through the "
         "whole public unprotect API (sync and async) against a scripted server, scripted provider at spnego.client; the decoded PDUs, "
